@@ -181,3 +181,16 @@ def fold_sum(ex, gen, init):
     if "getsizeof" in src:
         ex.assume(r.t >= 0)
     return ex.binop(ast.Add(), init, r)
+
+
+# -- opaque mappings ---------------------------------------------------------------
+@spec("map_has", lambda m, k: k in m)
+def _map_has(ex, m, k):
+    kt, kk = ex.lift(k)
+    return SBool(z3.Function(f"map_has_{kk}", ObjSort, ELEM_SORT[kk], BoolSort)(m.t, kt))
+
+
+@spec("map_at", lambda m, k: m[k])
+def _map_at(ex, m, k):
+    kt, kk = ex.lift(k)
+    return SAny(z3.Function(f"map_at_{kk}", ObjSort, ELEM_SORT[kk], ObjSort)(m.t, kt))
